@@ -105,11 +105,12 @@ PROPS = {
         "assumptions": ["coordinates are dyadic so binary64 arithmetic is exact; with astronomically large repeat counts only the integer counts are compared"],
     },
     "C02": {
-        "lean_modules": ["StimModel.Props.C02", "StimModel.Core.FrameRel", "StimModel.Generated.FrameThms", "StimModel.Generated.GateThms", "StimModel.Props.GF2", "StimModel.Props.GF2c"],
+        "lean_modules": ["StimModel.Props.C02", "StimModel.Core.FrameRel", "StimModel.Generated.FrameThms", "StimModel.Generated.GateThms", "StimModel.Props.GF2", "StimModel.Props.GF2c", "StimModel.Props.Record"],
         "areas": [
             {"area": "gatetab", "n": 1, "extra": ["Frame"]},
             {"area": "fsim", "n": {"quick": 500, "thorough": 10000}, "replayable": True},
             {"area": "cli", "n": {"quick": 240, "thorough": 5000}, "extra": ["sample"]},
+            {"area": "record", "n": {"quick": 600, "thorough": 20000}},
         ],
         "rule": "noisy generated circuits (every gate, noise channel incl. heralded and correlated ones with p in {0, 1/4, 1}, measurement-flip arguments, feedback, sweep-controlled gates, "
                 "REPEAT) and QEC-like circuits; per circuit 1..130 shots from FrameSimulator (3 widths) and 3..257 shots from sample_batch_measurements: every record must lie in the affine space "
@@ -328,3 +329,25 @@ PROPS = {
         "assumptions": [],
     },
 }
+
+
+# ---- coverage added by the command-line area (`cli`) and the streaming-record area: appended to the per-property rules
+_CLI_RULES = {
+    "C02": "area cli: `stim sample` in-process (shots {1,2,5,64,70,256}, 6 formats, --skip_loop_folding, --skip_reference_sample, --shots/--sample, "
+           "`--k v` and `--k=v`) with every decoded record sent to the record oracle and the bytes re-encoded by the Lean format model; "
+           "area record: random record/flush/lookback sequences on stim::MeasureRecord against Model/Record (equality)",
+    "C04": "area cli: `stim detect` (plain, --append_observables, --prepend_observables, --obs_out; shots up to 1100; 6 formats) judged by the record-free "
+           "oracle `fsim dets`; `stim m2d` (6 input formats, --sweep, --skip_reference_sample, --ran_without_feedback, --append_observables / --obs_out) "
+           "judged by the m2d oracle",
+    "C09": "area cli: `stim convert` on random bit tables (sizes from --bits_per_shot / --num_* / --dem / --circuit --types, optional --obs_out, every accepted "
+           "format pair): output bytes = Lean encoding of the input bits, and the readers return them",
+    "C16": "area cli: `stim sample_dem` (shots up to 1030 = two CLI batches, --out/--obs_out/--err_out in independent formats): every shot to the oracle, "
+           "certain/impossible errors checked, bytes re-encoded by Lean, --replay_err_in under another seed reproduces det/obs bytes",
+    "C03": "area cli: `stim analyze_errors` (flag matrix) whose printed model is parsed back and judged the same way",
+    "C10": "area cli: `stim analyze_errors --decompose_errors` (with the two decomposition flags) judged the same way",
+    "C18": "area cli: `stim explain_errors` (--dem_filter, --single): text equals the library's explanation",
+    "C19": "area cli: `stim gen` (--code/--gen, 6 code/task pairs, noise flags, rounds up to 2^32+1): printed text parses to the generator's circuit, header names "
+           "task/rounds/distance, small instances judged by `gencode check`",
+}
+for _k, _v in _CLI_RULES.items():
+    PROPS[_k]["rule"] = PROPS[_k]["rule"] + "; " + _v
